@@ -637,4 +637,130 @@ example :
     (applyTo { o with inlineConfig := o.inlineConfig.reverse } (defaultWithStyleEdition .e2015)).map
       (fun c => natOf c "fn_call_width") = some 110 := by decide +kernel
 
+/-! ## `--print-config`: print, then load the printed text -/
+
+/-- The text printed by `--print-config default|current` re-parses to the same effective
+configuration — PARTIAL.  For a configuration `c` that holds exactly the options of the table (true
+of everything the code builds, cf. `default_wf`), that can be printed (`toToml c = some l`: no
+integer above `i64::MAX`, which excludes `use_small_heuristics = "Off"`, F8a), whose printed values
+the parser accepts, and in which no width exceeds `max_width` (which excludes F8b): loading the
+printed text as a config file (nightly channel, no command-line override) succeeds and gives every
+printed option — every option outside the generated list `tomlHidden` — its value back.  The hidden
+ones (`verbose`, `file_lines`, the deprecated aliases, …) are not in the text and come back as
+defaults.  Both excluded cases are proved counter-examples below. -/
+theorem toml_roundtrip_partial (c : Config) (l : List (String × Val))
+    (hkeys : c.map (·.1) = optionNames) (hprint : toToml c = some l)
+    (htyped : validParsed l = true)
+    (hwidth : ∀ w ∈ widthKeys, natOf c w ≤ natOf c "max_width") :
+    ∃ c2, roundTrip ⟨true⟩ c = some c2 ∧
+      ∀ k ∈ optionNames, tomlHidden.contains k = false → (getE c2 k).val = (getE c k).val :=
+  roundTrip_values c l hkeys hprint htyped hwidth
+
+/-- Non-vacuity: the default configuration of every released style edition, and one loaded from a
+file with an explicit width, satisfy the four hypotheses; and the round trip is `[]`-different. -/
+example :
+    let c := defaultWithStyleEdition .e2024
+    c.map (·.1) = optionNames ∧ (toToml c).isSome = true ∧
+    ((toToml c).map validParsed) = some true ∧
+    (∀ w ∈ widthKeys, natOf c w ≤ natOf c "max_width") ∧
+    ((roundTrip ⟨true⟩ c).map (valueDiff c)) = some [] := by decide +kernel
+
+example :
+    (fromToml ⟨true⟩ [("max_width", .nat 80), ("chain_width", .nat 500),
+        ("use_small_heuristics", .str "Max"), ("merge_imports", .bool true)] none none none).map
+      (fun c => (c.map (·.1) == optionNames, (toToml c).map validParsed,
+        widthKeys.all (fun w => natOf c w ≤ natOf c "max_width"),
+        (roundTrip ⟨true⟩ c).map (valueDiff c))) = some (true, some true, true, some []) := by
+  decide +kernel
+
+/-- F8a: the configuration under `use_small_heuristics = "Off"` cannot be printed at all. -/
+theorem print_config_off_counterexample :
+    (overrideValue (defaultWithStyleEdition .e2015) "use_small_heuristics" (.str "Off")).map toToml
+      = some none := by decide +kernel
+
+/-- F8b: under the default heuristics with `max_width = 50` the printed text loads back with
+`fn_call_width`, `attr_fn_like_width`, `array_width` and `chain_width` clamped to 50: print / re-parse
+is not the identity (hypothesis `hwidth` of `toml_roundtrip_partial` fails). -/
+theorem toml_roundtrip_counterexample :
+    (overrideValue (defaultWithStyleEdition .e2015) "max_width" (.nat 50)).map
+      (fun c => (roundTrip ⟨true⟩ c).map (valueDiff c))
+      = some (some ["fn_call_width", "attr_fn_like_width", "array_width", "chain_width"]) := by
+  decide +kernel
+
+/-- `to_toml` prints exactly the options outside the hidden list, each once, in declaration order
+(for a configuration holding the options of the table), and fails exactly when one of them holds an
+integer above `i64::MAX`. -/
+theorem print_config_lists_every_option (c : Config) (hkeys : c.map (·.1) = optionNames) :
+    (∀ l, toToml c = some l →
+      l.map (·.1) = optionNames.filter (fun k => !tomlHidden.contains k)) ∧
+    (toToml c = none ↔ ∃ k ∈ optionNames, tomlHidden.contains k = false ∧
+      ∃ n, (getE c k).val = .nat n ∧ i64Max < n) := by
+  have hmapfilter : ∀ (c : Config), ((allOptions c).filter fun kv => !tomlHidden.contains kv.1).map (·.1) =
+      (c.map (·.1)).filter (fun k => !tomlHidden.contains k) := by
+    intro c
+    induction c with
+    | nil => rfl
+    | cons a r ih =>
+      obtain ⟨k, e⟩ := a
+      by_cases h : tomlHidden.contains k = true
+      · simp only [allOptions, List.map_cons, List.filter, h, Bool.not_true] at ih ⊢
+        exact ih
+      · have h' : tomlHidden.contains k = false := by simpa using h
+        simp only [allOptions, List.map_cons, List.filter, h', Bool.not_false] at ih ⊢
+        rw [ih]
+  refine ⟨fun l hl => by rw [toToml_some c l hl, hmapfilter, hkeys], ?_⟩
+  unfold toToml
+  simp only
+  constructor
+  · intro h
+    split at h
+    · cases h
+    · next hall =>
+      rw [List.all_eq_true] at hall
+      have : ∃ kv ∈ (allOptions c).filter (fun kv => !tomlHidden.contains kv.1),
+          ¬ (match kv.2 with | .nat n => decide (n ≤ i64Max) | _ => true) = true := by
+        apply Classical.byContradiction
+        intro hne
+        exact hall fun kv hkv => Classical.byContradiction fun hc => hne ⟨kv, hkv, hc⟩
+      obtain ⟨kv, hkv, hbad⟩ := this
+      obtain ⟨k, v⟩ := kv
+      have hm := List.mem_filter.1 hkv
+      have hkmem : k ∈ optionNames := by
+        rw [← hkeys]
+        obtain ⟨p, hp, hpe⟩ := List.mem_map.1 hm.1
+        cases hpe
+        exact List.mem_map.2 ⟨p, hp, rfl⟩
+      have hh : tomlHidden.contains k = false := by simpa using hm.2
+      have hlk := lookup_printed c hkeys k hkmem
+      rw [hh] at hlk
+      simp only [Bool.false_eq_true, if_false] at hlk
+      -- the printed list has distinct keys, so the member `(k, v)` is what `lookup` finds
+      have hnd : (((allOptions c).filter fun kv => !tomlHidden.contains kv.1).map (·.1)).Nodup := by
+        rw [hmapfilter, hkeys]
+        exact (List.filter_sublist.nodup (by decide +kernel : optionNames.Nodup))
+      have hv : v = (getE c k).val := by
+        have := lookup_of_mem_nodup _ k v hkv hnd
+        rw [hlk] at this
+        exact (Option.some.inj this).symm
+      cases v with
+      | nat n => exact ⟨k, hkmem, hh, n, hv.symm, by simpa using hbad⟩
+      | bool b => simp at hbad
+      | str s => simp at hbad
+  · rintro ⟨k, hk, hh, n, hn, hlt⟩
+    split
+    · next hall =>
+      exfalso
+      rw [List.all_eq_true] at hall
+      have hmem : (k, Val.nat n) ∈ (allOptions c).filter (fun kv => !tomlHidden.contains kv.1) := by
+        have hlk := lookup_printed c hkeys k hk
+        rw [hh, hn] at hlk
+        simp only [Bool.false_eq_true, if_false] at hlk
+        exact mem_of_lookup _ k _ hlk
+      have := hall _ hmem
+      simp only [decide_eq_true_eq] at this
+      omega
+    · rfl
+
+example : (defaultWithStyleEdition .e2015).map (·.1) = optionNames := by decide +kernel
+
 end RF.Props.C14
